@@ -237,6 +237,12 @@ where
             // Writing to a fresh sequential buffer avoids scattered-write cache thrashing.
             let (mut res_dft_tmp, scratch_2) = scratch_1.take_vec_znx_dft(self, res_dft.cols(), ggsw.size());
 
+            // The first product (di = 0) only writes the limbs it keeps: clear the ones it drops,
+            // the following digits accumulate into them.
+            if dsize > 2 {
+                res_dft.zero();
+            }
+
             for di in 0..dsize {
                 // (lhs.size() + di) / dsize = (a - (digit - di - 1)).div_ceil(dsize)
                 a_dft.set_size((a.size() + di) / dsize);
